@@ -149,6 +149,7 @@ type FuncSpec struct {
 	Src       string
 	MaxPaths  int
 	Refines   []Refinement
+	ReturnHints []*Clause // facts (may mention locals) proved at each return and then assumed for the postconditions
 	refExpanded bool
 }
 
@@ -695,7 +696,7 @@ type rawLine struct {
 }
 
 var topKeywords = map[string]bool{"func": true, "spec": true, "pred": true, "lemma": true, "ifacemethod": true}
-var clauseKeywords = map[string]bool{"refines": true, "requires": true, "ensures": true, "panics_if": true, "panics_iff": true, "nopanic": true,
+var clauseKeywords = map[string]bool{"returnhint": true, "refines": true, "requires": true, "ensures": true, "panics_if": true, "panics_iff": true, "nopanic": true,
 	"assigns": true, "loop": true, "trusted": true, "inline": true, "fnparam": true, "property": true, "maxpaths": true,
 	"opaque": true, "unfold": true}
 
@@ -906,6 +907,12 @@ func parseClauseInto(fs *FuncSpec, l rawLine) error {
 		return &Clause{Kind: kind, Label: label, Props: props, Reveal: reveal, E: e, Src: l.src, Text: rest}, nil
 	}
 	switch kw {
+	case "returnhint":
+		c, err := mk(kw, body)
+		if err != nil {
+			return err
+		}
+		fs.ReturnHints = append(fs.ReturnHints, c)
 	case "requires", "ensures", "panics_if", "panics_iff":
 		c, err := mk(kw, body)
 		if err != nil {
